@@ -39,6 +39,9 @@ func main() {
 	if prop == "replay" {
 		os.Exit(replay(os.Args[2]))
 	}
+	if prop == "libdriver" {
+		os.Exit(libDriver(os.Args[2]))
+	}
 	if tier != "quick" && tier != "thorough" {
 		fmt.Fprintln(os.Stderr, "tier must be quick or thorough")
 		os.Exit(3)
